@@ -327,5 +327,5 @@ func genC08(rt *rapid.T) c08Case {
 }
 
 func TestC08TimeoutCollector(t *testing.T) {
-	common.Check(t, "C08", "TestC08TimeoutCollector", 2500, 80000, genC08, c08Prop)
+	common.Check(t, "C08", "TestC08TimeoutCollector", 12000, 300000, genC08, c08Prop)
 }
